@@ -41,6 +41,7 @@ type cut struct {
 }
 
 type preRun struct {
+	stopFrom  int // index of the first durable operation of the clean stop that ends the life
 	mode, wl  string
 	ops       []consensus.VerifOp
 	start     int
@@ -108,11 +109,22 @@ func tmpDir() string {
 	if _, err := os.Stat(base); err != nil {
 		base = os.TempDir()
 	}
+	if root := os.Getenv("VERIF_TMPROOT"); root != "" {
+		base = root // removed as a whole by the supervisor after this process ended
+	}
 	d, err := os.MkdirTemp(base, "verif-c05-")
 	if err != nil {
 		panic(err)
 	}
 	return d
+}
+
+// removeDir removes a node directory at once only when no supervisor will remove the scratch root: a stopped
+// WAL group's ticker goroutine may still look at its directory for a moment (it would panic on a missing one).
+func removeDir(d string) {
+	if os.Getenv("VERIF_TMPROOT") == "" {
+		os.RemoveAll(d)
+	}
 }
 
 func shortLabel(op *consensus.VerifOp) string {
@@ -134,13 +146,35 @@ func shortLabel(op *consensus.VerifOp) string {
 
 const targetHeight = 4
 
+// sigMode: the snapshot-enabled variant of the keep mode shares its windows (same root causes); what differs shows
+// as a window of its own, the replay case carries the exact mode.
+// panicSite names the first go-kardia frame of a boot panic (the stack is part of the boot error).
+func panicSite(e string) string {
+	i := strings.Index(e, "panic(")
+	if i < 0 {
+		return ""
+	}
+	for _, l := range strings.Split(e[i:], "\n") {
+		l = strings.TrimSpace(l)
+		if strings.HasPrefix(l, "github.com/kardiachain/go-kardia/") && !strings.Contains(l, ".Verif") {
+			if k := strings.LastIndex(l, "("); k > 0 {
+				l = l[:k]
+			}
+			return " at " + strings.TrimPrefix(l, "github.com/kardiachain/go-kardia/")
+		}
+	}
+	return ""
+}
+
+func sigMode(mode string) string { return strings.TrimSuffix(mode, "+snap") }
+
 func record(mode, wl string) *preRun {
 	pr := &preRun{mode: mode, wl: wl, published: map[int]int{}, endHeight: map[uint64]int{}, saveBlock: map[uint64]int{}, stateSave: map[uint64]int{},
 		blocks: map[uint64]common.Hash{}, blockIDs: map[uint64]types.BlockID{}, txs: map[uint64][]common.Hash{}}
 	rec := &consensus.VerifRecorder{}
 	db := consensus.VerifNewRecDB(rec)
 	dir := tmpDir()
-	defer os.RemoveAll(dir)
+	defer removeDir(dir)
 	n, err := consensus.VerifBootFull(consensus.VerifFullConfig{Key: valKey, Funded: []common.Address{userAddr}, Archive: mode == "flush", Snapshot: strings.HasSuffix(mode, "+snap"), DB: db, WalDir: dir, Rec: rec})
 	if err != nil {
 		fmt.Println("MACHINERY-ERROR: the recorded run cannot boot:", err)
@@ -187,22 +221,39 @@ func record(mode, wl string) *preRun {
 	}
 	n.Begin()
 	ok := n.RunToHeight(targetHeight, 50, func(next uint64) { offer(n, wl, next) })
-	rec.OnCut = nil
 	if !ok || n.Failed != nil {
 		fmt.Printf("MACHINERY-ERROR: the recorded run (%s/%s) did not reach height %d: failed=%v\n%s\n", mode, wl, targetHeight, n.Failed, n.FailStk)
 		os.Exit(2)
 	}
+	// the life ends with a clean stop (Kardiachain.Stop: WAL flushed, snapshot journalled, cached states written):
+	// its writes are durable operations like any other, a crash can fall between them, and the cut after the last
+	// one is the "clean stop and restart" of an operator
+	pr.stopFrom = len(rec.Ops)
+	finalHeight := n.CS.Height
+	walBeforeStop := n.Full.WAL.FileWithTail()
+	rec.OnCut = func(idx int, op *consensus.VerifOp) {
+		for ; seenOps < idx; seenOps++ {
+			if o := rec.Ops[seenOps]; o.Dev == "wal" && o.FileAfter != nil {
+				lastSynced = o.FileAfter
+			}
+		}
+		pr.cuts = append(pr.cuts, cut{idx: idx, walSynced: lastSynced, walTail: walBeforeStop, height: finalHeight})
+	}
+	signedBefore := n.Signed
+	stateBefore := n.State().LastBlockHeight
+	n.CleanStop()
+	rec.OnCut = nil
 	// final cut: after everything
 	for ; seenOps < len(rec.Ops); seenOps++ {
 		if o := rec.Ops[seenOps]; o.Dev == "wal" && o.FileAfter != nil {
 			lastSynced = o.FileAfter
 		}
 	}
-	pr.cuts = append(pr.cuts, cut{idx: len(rec.Ops), walSynced: lastSynced, walTail: n.Full.WAL.FileWithTail(), height: n.CS.Height})
+	pr.cuts = append(pr.cuts, cut{idx: len(rec.Ops), walSynced: lastSynced, walTail: lastSynced, height: finalHeight})
 	rec.Off = true
 	pr.ops = rec.Ops
-	pr.signed = n.Signed
-	pr.final = n.State().LastBlockHeight
+	pr.signed = signedBefore
+	pr.final = stateBefore
 	// index the history
 	curH := uint64(0)
 	for i := pr.start; i < len(pr.ops); i++ {
@@ -314,7 +365,7 @@ func restart(mode, wl string, dbOps [][]consensus.VerifOp, wal []byte, env strin
 	}
 	db2 := consensus.VerifRestoreDB(all, len(all), rec2)
 	dir := tmpDir()
-	defer os.RemoveAll(dir)
+	defer removeDir(dir)
 	var l2 *life2
 	var nptr *consensus.VerifNode
 	if record {
@@ -345,7 +396,7 @@ func restart(mode, wl string, dbOps [][]consensus.VerifOp, wal []byte, env strin
 	}
 	nptr = n
 	if err != nil {
-		out["R1"] = "the node cannot be started on the surviving files without manual repair: " + firstLine(err.Error())
+		out["R1"] = "the node cannot be started on the surviving files without manual repair: " + firstLine(err.Error()) + panicSite(err.Error())
 		return out, nil
 	}
 	if record {
@@ -566,7 +617,7 @@ func main() {
 	report.Supervise("C05", "fault_enumeration", "R1:node-process-dies",
 		"while lives are recorded / restarted nodes run: the process of a node in that situation ends (it does not come back without manual repair)")
 	r = report.New("C05", "fault_enumeration")
-	modes := []string{"flush", "keep"}
+	modes := []string{"flush", "keep", "keep+snap"}
 	if v := os.Getenv("C05_MODES"); v != "" {
 		modes = strings.Split(v, ",")
 	}
@@ -703,7 +754,7 @@ func main() {
 						if c2.idx == 0 {
 							la2 = "restart"
 						}
-						sig := fmt.Sprintf("C05|mode=%s|height=%s|after=%s|before=%s|oracle=%s", j.pr.mode, hc2, la2, shortLabel(b2), k)
+						sig := fmt.Sprintf("C05|mode=%s|height=%s|after=%s|before=%s|oracle=%s", sigMode(j.pr.mode), hc2, la2, shortLabel(b2), k)
 						r.Violation(sig, what+fmt.Sprintf(" [second crash; wal tail: %s]", t2), map[string]interface{}{"mode": j.pr.mode, "workload": j.pr.wl, "first_cut": j.c.idx - j.pr.start, "second_cut": c2.idx, "tail": t2})
 					}
 					if len(res2) == 0 {
@@ -720,7 +771,7 @@ func main() {
 		for k, what := range res {
 			// the WAL tail variant and the environment are part of the replay case, not of the signature:
 			// a crash window is identified by the durable operations around the cut
-			sig := fmt.Sprintf("C05|mode=%s|height=%s|after=%s|before=%s|oracle=%s", j.pr.mode, hclass, la, lb, k)
+			sig := fmt.Sprintf("C05|mode=%s|height=%s|after=%s|before=%s|oracle=%s", sigMode(j.pr.mode), hclass, la, lb, k)
 			r.Violation(sig, what+fmt.Sprintf(" [wal tail: %s, environment: %s]", j.tail, j.env), cid)
 		}
 		if len(res) == 0 {
@@ -738,7 +789,7 @@ func main() {
 		rec := &consensus.VerifRecorder{}
 		viol, reached, ownVotes, err := consensus.VerifFreeRun(consensus.VerifFullConfig{Key: valKey, Funded: []common.Address{userAddr}, Archive: mode == "flush",
 			DB: consensus.VerifNewRecDB(rec), WalDir: dir, Rec: rec}, 3, 60*time.Second)
-		os.RemoveAll(dir)
+		removeDir(dir)
 		r.Add("free_run_heights", int64(reached))
 		r.Add("free_run_own_votes_checked", int64(ownVotes))
 		if err != nil {
